@@ -23,7 +23,7 @@ package main
 //@   ensures{C18} fs-writes-named: forallEv(i, evKind(i, "fs-write") ==> evIs(i, "os.Remove") || (evIs(i, "os.MkdirAll") && evArg(i, 0) == uf("filepath.Dir", String, flags.outFile)) || (evIs(i, "os.WriteFile") && evArg(i, 0) == flags.outFile))
 //@   ensures{C18} no-out-no-write: flags.outFile == "" ==> forallEv(i, !evKind(i, "fs-write"))
 //@   ensures{C17} file-only-after-mock-ok: forallEv(i, evIs(i, "os.MkdirAll") || evIs(i, "os.WriteFile") ==> existsEv(j, j < i && evIs(j, "call:moq.Mocker.Mock") && evRes(j) == nil))
-//@   ensures{C17} file-written-last: err == nil && flags.outFile != "" ==> existsEv(i, evIs(i, "os.WriteFile") && evRes(i) == nil && forallEv(j, j > i ==> !effectful(j)) && existsEv(k, k < i && evIs(k, "os.MkdirAll") && evRes(k) == nil))
+//@   ensures{C17,C14,C16} file-written-last: err == nil && flags.outFile != "" ==> existsEv(i, evIs(i, "os.WriteFile") && evRes(i) == nil && forallEv(j, j > i ==> !effectful(j)) && existsEv(k, k < i && evIs(k, "os.MkdirAll") && evRes(k) == nil))
 //@   ensures{C17} mkdir-before-write: forallEv(i, evIs(i, "os.WriteFile") ==> existsEv(k, k < i && evIs(k, "os.MkdirAll") && evRes(k) == nil))
 //@   ensures{C17} one-file-write: forallEv(i, j, evIs(i, "os.WriteFile") && evIs(j, "os.WriteFile") ==> i == j)
 //@   ensures{C17} one-mock-call: forallEv(i, j, evIs(i, "call:moq.Mocker.Mock") && evIs(j, "call:moq.Mocker.Mock") ==> i == j)
@@ -36,7 +36,7 @@ package main
 //@   ensures{C17} success-means-generated: err == nil ==> existsEv(j, evIs(j, "call:moq.Mocker.Mock") && evRes(j) == nil)
 //@   ensures{C08,C10,C16} config-plumbed: forallEv(i, evIs(i, "call:moq.New") ==> evArg(i, 0).SrcDir == old(flags.args[0]) && evArg(i, 0).PkgName == flags.pkgName && evArg(i, 0).Formatter == flags.formatter && evArg(i, 0).StubImpl == flags.stubImpl && evArg(i, 0).SkipEnsure == flags.skipEnsure && evArg(i, 0).WithResets == flags.withResets)
 //@   ensures{C20} args-plumbed: forallEv(i, evIs(i, "call:moq.Mocker.Mock") ==> evArg(i, 2) == flags.args[1:] && existsEv(j, j < i && evIs(j, "call:moq.New") && evRes(j, 0) == evArg(i, 0)))
-//@   ensures{C17} file-content-is-buffer: forallEv(i, evIs(i, "os.WriteFile") ==> existsEv(j, j < i && evIs(j, "call:moq.Mocker.Mock") && existsEv(b, b > j && b < i && evIs(b, "(*bytes.Buffer).Bytes") && evArg(b, 0) == evArg(j, 1) && evArg(i, 1) == evRes(b))))
+//@   ensures{C17,C14,C16} file-content-is-buffer: forallEv(i, evIs(i, "os.WriteFile") ==> existsEv(j, j < i && evIs(j, "call:moq.Mocker.Mock") && existsEv(b, b > j && b < i && evIs(b, "(*bytes.Buffer).Bytes") && evArg(b, 0) == evArg(j, 1) && evArg(i, 1) == evRes(b))))
 
 //@ func main.main
 //@   props C17
